@@ -71,6 +71,7 @@ type run struct {
 	issuedTo     map[string]string      // task (lowest op) -> that worker
 	released     bool                   // calls suspended by a hold continued in the segment being judged: events cannot be attributed to the primary op alone
 	justReleased map[string]delayedSync // delayed Synchronize calls that reached the scheduler in the segment being judged
+	termSeen     map[string]bool        // workers observed with the terminating mark (C05.terminating_monotone)
 	holdThis     bool                   // the op being applied keeps woken-up workers suspended before they re-take the scheduler lock
 	pending      *failure               // a model/implementation disagreement that does not stop the history: a violation found later in the same history takes precedence (see finish)
 }
